@@ -158,7 +158,7 @@ Init == /\ db \in SUBSET DbU
 Check(n) ==
     \E o \in {[q |-> oc.q, v |-> oc.v] : oc \in Outcomes(n, cache, db)} :
          /\ ImplOnly => o.q = ImplQ(n) /\ o.v = Hit(n, RefC(n), cache, db, o.q)
-         /\ cache' = Store(cache, o.q, Received(db, o.q))
+         /\ cache' = Store(cache, o.q, Received(db, o.q), T)
          \* the ghost is kept by the DEFINITION of a fresh lookup, not by Store
          /\ fdb' = [p \in Prefixes |-> IF p \in o.q THEN Fresh(db, p) ELSE fdb[p]]
          /\ last' = [a |-> "check", n |-> n.l, q |-> o.q, v |-> o.v]
